@@ -190,42 +190,51 @@ def gen_plan(seed, cfg):
                 base.append({"kind": "eval", "prob": pk, "assignment": prob["assignment"],
                              "out_format": fm[tname], "inputs": bad, "backend": "llvm", "bad": True,
                              "key": f"eval|{pk}|llvm|bad:" + _data_key(bad)})
-    history = []
-    nreq = rng.randint(25, 60)
-    evict_at = rng.randrange(3, nreq) if rng.random() < 0.12 else -1
-    for j in range(nreq):
-        r = rng.random()
-        if j == evict_at:
-            history.append({"kind": "evict", "n": 140})
-            continue
-        if r < 0.06:
-            history.append({"kind": "cache_clear"})
-            if rng.random() < 0.5:
+    def gen_history():
+        history = []
+        nreq = rng.randint(25, 60)
+        evict_at = rng.randrange(3, nreq) if rng.random() < 0.12 else -1
+        for j in range(nreq):
+            r = rng.random()
+            if j == evict_at:
+                history.append({"kind": "evict", "n": 140})
+                continue
+            if r < 0.06:
+                history.append({"kind": "cache_clear"})
+                if rng.random() < 0.5:
+                    history.append({"kind": "gc"})
+                continue
+            if r < 0.08:
                 history.append({"kind": "gc"})
-            continue
-        if r < 0.08:
-            history.append({"kind": "gc"})
-            continue
-        b = rng.choice(base)
-        history.append(_concretise(rng, b))
-        if b.get("bad") and rng.random() < 0.7:
-            # an identical rejected request again, straight away
+                continue
+            b = rng.choice(base)
             history.append(_concretise(rng, b))
-    if rng.random() < 0.35:
-        # the process's first use of the library is the compilation of a C kernel; later that
-        # kernel is dropped and collected while requests keep coming
-        tms = [b for b in base if b["kind"] == "tm"]
-        if tms:
-            b = dict(rng.choice(tms))
-            if b["backend"] != "cffi":
-                b["backend"] = "cffi"
-                b["key"] = f"tm|{b['prob']}|cffi"
-                base.append(b)
-            history.insert(0, _concretise(rng, b))
-            at = rng.randint(1, max(1, len(history) // 2))
-            history[at:at] = [{"kind": "cache_clear"}, {"kind": "gc"}]
-    return {"engine": "P", "run_seed": seed, "hashseed": seed % 8,
-            "child_hashseed": rng.randrange(1, 2 ** 32), "base": base, "history": history}
+            if b.get("bad") and rng.random() < 0.7:
+                # an identical rejected request again, straight away
+                history.append(_concretise(rng, b))
+        if rng.random() < 0.35:
+            # the process's first use of the library is the compilation of a C kernel; later that
+            # kernel is dropped and collected while requests keep coming
+            tms = [b for b in base if b["kind"] == "tm"]
+            if tms:
+                b = dict(rng.choice(tms))
+                if b["backend"] != "cffi":
+                    b["backend"] = "cffi"
+                    b["key"] = f"tm|{b['prob']}|cffi"
+                    base.append(b)
+                history.insert(0, _concretise(rng, b))
+                at = rng.randint(1, max(1, len(history) // 2))
+                history[at:at] = [{"kind": "cache_clear"}, {"kind": "gc"}]
+        return history
+
+    # one baseline interpreter serves two variant interpreters (two histories over the same requests,
+    # two hash seeds): half as many baseline starts per variant history
+    h1 = gen_history()
+    hs1 = rng.randrange(1, 2 ** 32)
+    variants = [{"hashseed": hs1, "history": h1}]
+    if rng.random() < 0.8:
+        variants.append({"hashseed": rng.randrange(1, 2 ** 32), "history": gen_history()})
+    return {"engine": "P", "run_seed": seed, "hashseed": seed % 8, "base": base, "variants": variants}
 
 
 def _data_key(inputs):
@@ -351,20 +360,21 @@ def run_plan(plan, cfg=None):
                     "detail": json.loads(json.dumps(detail, default=repr))})
 
     res = {"verdict": "ok", "violations": [], "stats": {}, "probes": {}, "skip": None}
+    variants = _variants(plan)
     try:
         bobs, berr = _child(baseline_hist, 0)
-        vobs, verr = _child(plan["history"], plan["child_hashseed"])
+        vall = [_child(v["history"], v["hashseed"]) for v in variants]
     except subprocess.TimeoutExpired:
         res["verdict"] = "inconclusive"
         res["skip"] = "child_timeout"
         return res
-    if bobs is None or vobs is None:
+    if bobs is None or any(vo is None for vo, _ in vall):
         # an interpreter that dies while serving requests is a crash of the system under test only
         # if it is the variant history that kills it deterministically; report as harness error
         res["verdict"] = "harness_error"
-        res["error"] = berr or verr
+        res["error"] = berr or [e for _, e in vall if e][0]
         return res
-    for o in bobs + vobs:
+    for o in bobs + [o for vo, _ in vall for o in vo]:
         if o["outcome"] == "harness_error":
             res["verdict"] = "harness_error"
             res["error"] = o.get("error")
@@ -378,14 +388,31 @@ def run_plan(plan, cfg=None):
         if o["key"] in canon and canon[o["key"]] != oc:
             viol("same_request_different_output_in_one_process", o["key"], canon[o["key"]], oc)
         canon[o["key"]] = oc
-    stats = {"requests": len(vobs), "cli_requests": 0, "cli_to_file": 0, "cache_clear": 0,
+    stats = {"requests": sum(len(vo) for vo, _ in vall), "variant_interpreters": len(vall),
+             "cli_requests": 0, "cli_to_file": 0, "cache_clear": 0,
              "eviction_flood": 0, "private_cache_requests": 0, "refused_requests": 0,
              "requests_after_eviction": 0, "requests_after_clear": 0}
     triples = set()
+    digest_src = []
+    for vi, ((vobs, _), var) in enumerate(zip(vall, variants)):
+        _compare_variant(vi, vobs, var, canon, stats, triples, viol, res)
+        digest_src.append([[o.get("key"), _outcome(o), o.get("same_object_as")] for o in vobs])
+    vobs = [o for vo, _ in vall for o in vo]
+    return _finish(res, vio, stats, triples, digest_src, vobs, bobs, canon, plan)
+
+
+def _variants(plan):
+    if "variants" in plan:
+        return plan["variants"]
+    return [{"hashseed": plan["child_hashseed"], "history": plan["history"]}]  # replay files of the first version
+
+
+def _compare_variant(vi, vobs, var, canon, stats, triples, viol, res):
+    history = var["history"]
     state = "cold"
     seen_keys = set()
     prob_of_first = {}
-    for o, rq in zip(vobs, plan["history"]):
+    for o, rq in zip(vobs, history):
         k = rq["kind"]
         if k == "cache_clear":
             stats["cache_clear"] += 1
@@ -428,7 +455,7 @@ def run_plan(plan, cfg=None):
         if o["outcome"] == "method":
             first = o["same_object_as"]
             if first != o["i"]:
-                other = plan["history"][first]
+                other = history[first]
                 # tensor_method canonicalises the format order, the private entry does not
                 if other["prob"] != rq["prob"]:
                     viol("cached_kernel_shared_across_problems", rq["prob"], other["prob"])
@@ -444,8 +471,11 @@ def run_plan(plan, cfg=None):
             canon[key] = oc
         elif want != oc and not (o.get("digest_raw") and want == "text:" + o["digest_raw"]):
             how = {"gen_cli": "cli", "gen_lib": "library", "eval": "evaluate"}.get(k, k)
-            viol("same_request_different_output", key, f"variant[{how}, hashseed={plan['child_hashseed']}, "
+            viol("same_request_different_output", key, f"variant {vi}[{how}, hashseed={var['hashseed']}, "
                  f"cache={cstate}]={oc}", f"baseline={want}")
+
+
+def _finish(res, vio, stats, triples, digest_src, vobs, bobs, canon, plan):
     res["stats"] = stats
     res["probes"] = {"variant_used_other_hashseed": 1}
     seen = set()
@@ -460,8 +490,7 @@ def run_plan(plan, cfg=None):
     res["steps"] = len(vobs) + len(bobs)
     import hashlib
 
-    res["digest"] = hashlib.blake2b(json.dumps([[o.get("key"), _outcome(o), o.get("same_object_as")]
-                                                for o in vobs]).encode(), digest_size=8).hexdigest()
+    res["digest"] = hashlib.blake2b(json.dumps(digest_src).encode(), digest_size=8).hexdigest()
     res["extra"] = {"triples": sorted([k, s] for k, s in triples), "canon": canon,
                     "plan": {"run_seed": plan["run_seed"], "base": plan["base"]}}
     res["shape"] = res["digest"]
@@ -488,10 +517,11 @@ def fingerprint(plan, violation):
 def sample(plan, res):
     if "pair" in plan:
         return {"pair_of_runs": [p["run_seed"] for p in plan["pair"]]}
-    return {"child_hashseed": plan["child_hashseed"],
+    vs = _variants(plan)
+    return {"variant_hashseeds": [v["hashseed"] for v in vs],
             "history": [{k: v for k, v in rq.items() if k not in ("inputs", "key", "prob")}
-                        for rq in plan["history"][:12]],
-            "history_length": len(plan["history"]), "distinct_requests": len(plan["base"]),
+                        for rq in vs[0]["history"][:12]],
+            "history_lengths": [len(v["history"]) for v in vs], "distinct_requests": len(plan["base"]),
             "verdict": res["verdict"], "digest": res.get("digest")}
 
 
@@ -514,30 +544,39 @@ def summarise_extra(agg):
 def shrink_candidates(plan):
     if "pair" in plan:
         return
-    h = plan["history"]
-    n = len(h)
-
-    def with_history(hh):
-        p = copy.deepcopy(plan)
-        p["history"] = hh
-        return p
-
-    chunk = max(1, n // 2)
-    while chunk >= 1:
-        for start in range(0, n, chunk):
-            hh = h[:start] + h[start + chunk:]
-            if hh and len(hh) < n:
-                yield with_history(hh)
-        if chunk == 1:
-            break
-        chunk //= 2
+    vs = _variants(plan)
+    base_plan = copy.deepcopy(plan)
+    base_plan.pop("history", None)
+    base_plan.pop("child_hashseed", None)
+    base_plan["variants"] = copy.deepcopy(vs)
+    # one variant interpreter is enough if the disagreement is with the baseline
+    if len(vs) > 1:
+        for keep in range(len(vs)):
+            p = copy.deepcopy(base_plan)
+            p["variants"] = [copy.deepcopy(vs[keep])]
+            yield p
+    for vi, var in enumerate(vs):
+        h = var["history"]
+        n = len(h)
+        chunk = max(1, n // 2)
+        while chunk >= 1:
+            for start in range(0, n, chunk):
+                hh = h[:start] + h[start + chunk:]
+                if hh and len(hh) < n:
+                    p = copy.deepcopy(base_plan)
+                    p["variants"][vi]["history"] = hh
+                    yield p
+            if chunk == 1:
+                break
+            chunk //= 2
     if len(plan["base"]) > 1:
-        used = {rq.get("key", "").split("|order:")[0] for rq in h}
-        p = copy.deepcopy(plan)
+        used = {rq.get("key", "").split("|order:")[0] for var in vs for rq in var["history"]}
+        p = copy.deepcopy(base_plan)
         p["base"] = [b for b in plan["base"] if b["key"] in used]
         if len(p["base"]) < len(plan["base"]):
             yield p
-    if plan["child_hashseed"] != 0:
-        p = copy.deepcopy(plan)
-        p["child_hashseed"] = 0
-        yield p
+    for vi, var in enumerate(vs):
+        if var["hashseed"] != 0:
+            p = copy.deepcopy(base_plan)
+            p["variants"][vi]["hashseed"] = 0
+            yield p
